@@ -56,6 +56,12 @@ func (s *Server) laURLHandlerFunc(w http.ResponseWriter, r *http.Request) {
 			http.Error(w, msg, http.StatusInternalServerError)
 			return
 		}
+		if !isOwnKid(kid16) {
+			msg := "unknown key ID"
+			log.Error(msg, "kid", kid)
+			http.Error(w, msg, http.StatusBadRequest)
+			return
+		}
 		key := kidToKey(kid16)
 		keyStr := urlSafeBase64(key.PackBase64())
 		kidStr := urlSafeBase64(kid)
